@@ -203,7 +203,7 @@ CHECKS['C04'] = {
     'jobs': {'quick': [J('c04_abort.cpp', ['KMAX=10'], wall=280, markers=(1, 2, 3), opts={'max_instr': 3000000})],
              'thorough': [J('c04_abort.cpp', ['KMAX=16'], wall=700, markers=(1, 2, 3), opts={'max_instr': 3000000})]},
     'bounds': {'quick': '14 operation kinds (timer wait; TCP connect, refused connect, read, wait-read, blocked write; the three accepts; UDP receive_from, receive, wait-read, wait-write; resolve) x '
-                        '7 interventions (none, cancel, close, destroy, supersede with the same operation / re-arm, handler throws, supersede with the other form of the operation) x every event boundary k in -1..10 (and at quiescence) x awaited event arrives after 3 ms or never',
+                        '8 interventions (none, cancel, close, destroy, supersede with the same operation / re-arm, handler throws, supersede with the other form of the operation, move the object into a new one and destroy the source - the operation must go on and complete unaborted) x every event boundary k in -1..10 (and at quiescence) x awaited event arrives after 3 ms or never; for the timer kind two bystander timers due at the same instant (one armed before, one after) must complete normally',
                'thorough': 'boundaries up to 16'},
     'outside': ['interventions on operations of other objects of the same scenario', 'lossy routes (see C12 thorough)'],
     'assumptions': ['step hook in simulation::run() (guard LIBSIMULATOR_VERIF): one handler per poll_one()'],
@@ -248,11 +248,11 @@ CHECKS['C18'] = {
                        J('c18_proxy.cpp', ['SMALLMTU'], wall=280, markers=(1, 2, 3), opts={'max_instr': 40000000})],
              'thorough': [J('c18_proxy.cpp', [], wall=700, markers=(1, 2, 3), opts={'max_instr': 30000000}),
                           J('c18_proxy.cpp', ['SMALLMTU'], wall=700, markers=(1, 2, 3), opts={'max_instr': 40000000})]},
-    'bounds': {'quick': 'one request of 9 kinds (named host with a five-digit port; literal host:port; a path and query containing colons; named host resolved through the simulated resolver, other method, query; unresolvable name; refused port; default port 80 with nobody listening; '
+    'bounds': {'quick': 'one request of 11 kinds (bracketed IPv6 literal with a port / without one (port 80: refused, and not looked up as a name); named host with a five-digit port; literal host:port; a path and query containing colons; named host resolved through the simulated resolver, other method, query; unresolvable name; refused port; default port 80 with nobody listening; '
                         'relative URI; literal with extra header and Host) or two pipelined requests to the same origin (3 pairs); the byte stream cut into up to 3 writes at 5 candidate positions, back to back or 10 ms apart; '
                         'the origin (in the harness) records what it receives and answers distinct fixed responses; then a second client (whose origin must see exactly its own request), then stop() and a refused connect; the whole space once with the default path MTU and once with a path MTU of 16 bytes (several segments and congestion windows per message: partial writes)',
                'thorough': 'same space (exhaustive already)'},
-    'outside': ['IPv6 literals', 'requests to different origins on one client connection (unsupported by the proxy: TODO in the source)', 'large bodies'],
+    'outside': ['an origin actually listening on port 80 (the simulator refuses binds below 1024)', 'requests to different origins on one client connection (unsupported by the proxy: TODO in the source)', 'large bodies'],
     'assumptions': ['printf/formatting is stubbed'],
 }
 
